@@ -56,19 +56,26 @@ def surfaceArea (s : BBox α) : α :=
   let d := s.max - s.min
   2 * (d.x * d.y + d.x * d.z + d.y * d.z)
 
+/-- one slab of `BBox3D::intersect`: the two plane parameters; a NaN (`0 * ∞`: origin on a plane of a slab the ray is
+    parallel to) makes the slab unbounded; then ordered by `if a > b {swap}` -/
+def slabAxis (mn mx o inv : α) : α × α :=
+  let a := (mn - o) * inv
+  let b := (mx - o) * inv
+  if isNaN a || isNaN b then swapGt (-(Num.inf : α)) Num.inf else swapGt a b
+
 /-- `BBox3D::intersect(ray, inv_dir)` -/
 def intersect (s : BBox α) (ray : Ray α) (inv : V3 α) : Bool :=
   let g : α := 1 + 2 * gamma (3 : α)
-  let tx := swapGt ((s.min.x - ray.origin.x) * inv.x) ((s.max.x - ray.origin.x) * inv.x)
+  let tx := slabAxis s.min.x s.max.x ray.origin.x inv.x
   if tx.2 <. (0 : α) then false else
-  let ty := swapGt ((s.min.y - ray.origin.y) * inv.y) ((s.max.y - ray.origin.y) * inv.y)
+  let ty := slabAxis s.min.y s.max.y ray.origin.y inv.y
   if ty.2 <. (0 : α) then false else
   let txMax := tx.2 * g
   let tyMax := ty.2 * g
   if tx.1 >. tyMax || ty.1 >. txMax then false else
   let txMin := if ty.1 >. tx.1 then ty.1 else tx.1
   let txMax := if tyMax <. txMax then tyMax else txMax
-  let tz := swapGt ((s.min.z - ray.origin.z) * inv.z) ((s.max.z - ray.origin.z) * inv.z)
+  let tz := slabAxis s.min.z s.max.z ray.origin.z inv.z
   if tz.2 <. (0 : α) then false else
   let tzMax := tz.2 * g
   if txMin >. tzMax || tz.1 >. txMax then false else
